@@ -28,7 +28,7 @@ def main():
             return 3
 
         def run(p):
-            r = subprocess.run([sys.executable, os.path.join(HERE, 'run_check.py'), p,
+            r = subprocess.run(['/venv/bin/python' if os.access('/venv/bin/python', os.X_OK) else sys.executable, os.path.join(HERE, 'run_check.py'), p,
                                 '--root', base], capture_output=True, text=True)
             fired = [l.strip() for l in r.stdout.splitlines() if l.startswith('  rule=')]
             err = [l for l in r.stdout.splitlines() if l.startswith('ANALYSIS-ERROR')]
